@@ -127,6 +127,15 @@ func evalOutcome(sc *formula.SourceCode, data map[string]interface{}) string {
 	return outcome(v, err, p, pv)
 }
 
+// parseSig is what a host sees of parsing a text of its own: the error, or the tree's shape and the fields it reads.
+func parseSig(text string) string {
+	sc, err := hostParse([]byte(text), true)
+	if err != nil {
+		return "ERROR " + err.Error()
+	}
+	return obs.Canon(sc.Expression) + " fields " + fieldsOf(sc)
+}
+
 var c09Share = core.Mon(c09, "concurrent-share", func(w *core.W, c *RaceCfg) {
 	w.Cur("concurrent-share", c)
 	runtime.GOMAXPROCS(c.Procs)
@@ -143,7 +152,7 @@ var c09Share = core.Mon(c09, "concurrent-share", func(w *core.W, c *RaceCfg) {
 	}
 	// hot trees: every goroutine starts with these, in the same order, so that the FIRST use of whatever the
 	// evaluator builds lazily (per type, per pattern, per literal...) overlaps between goroutines
-	hot := []string{"st.A + len(st.S)", "pst.A", "ra.Qty * ra.Price", "rb.Qty * rb.Price", "ra.Note", "st.M.k", "z ?? 0", "b0 ? 100 : n1", "max(n0, 1.50)", "z || 0.0", "(n0, 0)", "2.50",
+	hot := []string{"fcurry(n0)(n1, s0, 3)", "(b0 ? fid : fcat)(s0, n0, 3, 4, 5)", "st.A + len(st.S)", "fcurry(1)(n0, n1, s1, 3, 4, 5)", "m.k(1)(n0, 2, 3, 4, 5, 6, 7)", "pst.A", "ra.Qty * ra.Price", "rb.Qty * rb.Price", "ra.Note", "st.M.k", "z ?? 0", "b0 ? 100 : n1", "max(n0, 1.50)", "z || 0.0", "(n0, 0)", "2.50",
 		"regexp(s0, '^g[0-9]+')", "round(n0 / 7) + toInt(n1)", "lower(s0) + upper(s1)", "date(2020, 1, 31)", "typeof st", "[1, 2.50, 'x']", "m.k ?? tm.k", "nilp ?? nd ?? 7", "join(strs, ',')", "this.n0", "-n0 + -1", "!b0 || !!z",
 		// patterns that differ between goroutines (own pattern from the data) and between trees, evaluated at the same moment
 		"regexp(s0, pat)", "regexp(s0, '^g1-')", "regexp(s0, '^g2-')", "regexp(s0, 'g[0-9]*-abab$')", "[regexp(s0, pat), regexp(s0, '^x'), regexp(s0, pat)]", "regexp('g0-abab', pat) ? 1 : 2",
@@ -200,6 +209,7 @@ var c09Share = core.Mon(c09, "concurrent-share", func(w *core.W, c *RaceCfg) {
 			}
 		})
 	}
+	var probeChecks int64
 	var overlaps, evals, analyses, parses, errParses, nilMapRuns, ctxRuns, deepRuns, stormRuns int64
 	stormFirst := make([]string, c.G)
 	whoTree, werr0 := hostParse([]byte("who(n0) + 1"), true)
@@ -225,6 +235,10 @@ var c09Share = core.Mon(c09, "concurrent-share", func(w *core.W, c *RaceCfg) {
 		tree int
 		out  string
 	}
+	// names in several scripts (each goroutine its own) and texts in which a character that belongs to no name follows one
+	scripts := []string{"\u03b1\u03b2\u03b3\u03b4", "\u540d\u524d\u5024", "\u0438\u043c\u044f\u0436", "\u05e9\u05dc\u05d5\u05dd", "\u0928\u093e\u092e", "\uac00\ub098\ub2e4", "\u00e9\u00fc\u00f8\u00e5", "\u3042\u3044\u3046"}
+	probes := []string{"a\u3002b", "ab\u3002", "n0\u3000+ 1", "xy\u2028+ z", "ab\uff0c cd", "a\u00d7b", "s0\u2003?? n1", "ab\u2190c", "k\u30fbm", "ab\u00f7 2", "q\u2215 r", "na\u1680me", "w\u02c2 1", "u\u0375v", "ab\u3001c"}
+	seenProbe := make([][]obsv, c.G)
 	seen := make([][]obsv, c.G)       // per goroutine: what it observed (written by that goroutine only)
 	seenFields := make([][]obsv, c.G) // likewise for the field analysis
 	var wg sync.WaitGroup
@@ -263,7 +277,10 @@ var c09Share = core.Mon(c09, "concurrent-share", func(w *core.W, c *RaceCfg) {
 				case 2:
 					// a text of its own, valid
 					// fresh identifiers of several lengths, keywords and builtins: the parser's tables are shared
-					own := fmt.Sprintf("n0 + %d * len(s0) - %d + (typeof v%dx%d == 'object' ? abcdef : 0) + uniq_%d_%d + (this.k%d ?? 0)", g, it, g, it, g, it, it%7)
+					sn := scripts[(g+it/5)%len(scripts)]
+					own := fmt.Sprintf("n0 + %d * len(s0) - %d + (typeof v%dx%d == 'object' ? abcdef : 0) + uniq_%d_%d + (this.k%d ?? 0) + (this.%s%d ?? q%s ?? 0)", g, it, g, it, g, it, it%7, sn, g, sn)
+					pi := (g*7 + it/5) % len(probes)
+					seenProbe[g] = append(seenProbe[g], obsv{pi, parseSig(probes[pi])})
 					sc, err := hostParse([]byte(own), true)
 					atomic.AddInt64(&parses, 1)
 					if err != nil {
@@ -442,6 +459,12 @@ var c09Share = core.Mon(c09, "concurrent-share", func(w *core.W, c *RaceCfg) {
 				report(mismatch{g, o.tree, "field analysis", trees[o.tree].fields, o.out})
 			}
 		}
+		for _, o := range seenProbe[g] {
+			if want := parseSig(probes[o.tree]); o.out != want {
+				report(mismatch{g, -1, fmt.Sprintf("own parse of %q", probes[o.tree]), want, o.out})
+			}
+			probeChecks++
+		}
 	}
 	w.Eval(int(evals))
 	w.CountN("goroutine_evaluations", evals)
@@ -449,6 +472,7 @@ var c09Share = core.Mon(c09, "concurrent-share", func(w *core.W, c *RaceCfg) {
 	w.CountN("field_analyses", analyses)
 	w.CountN("own_parses", parses)
 	w.CountN("own_error_parses", errParses)
+	w.CountN("own_probe_parses", probeChecks)
 	w.CountN("runners_without_data_map", nilMapRuns)
 	w.CountN("runner_from_context_checks", ctxRuns)
 	w.CountN("deep_evaluations_in_flight_together", deepRuns)
